@@ -3,11 +3,39 @@
 import json, os
 VERIF = os.path.dirname(os.path.dirname(os.path.abspath(__file__)))
 BASE = "cd /repo && cargo test --workspace --no-fail-fast --offline"
+T_VERUS = "Verus requires/ensures/invariant contracts injected into functions extracted from /repo each run, discharged by Z3"
+TRUST = "Trusted: Verus/Z3; extraction rules R0-R12 (DESIGN 3.1); hand-written assumed contracts on dependencies (prelude/*.rs: melstructs, novasmt, tmelcrypt, stdcode, num, melpow, imbl, rayon/iterators as eager sequences); hash collision-freedom and serialisation injectivity as axioms. "
 CLAIMED = {
+ "C02": dict(level="proof", design="DESIGN.md 4/C02",
+   text="create_next_state proved to produce exactly (coins + kept outputs + faucet markers - inputs) with the recorded data, whole-view postcondition (batch_coins), over the raw-SMT-verified CoinMapping insert/remove/get contracts; output_coins_from_tx proved to create exactly the non-destroyed outputs with NewCustom->Custom(hash) and the block height; check_tx_validity proves existence/balance/approval/unlock for accepted transactions.",
+   note=TRUST + "Not yet under contract: load_relevant_coins / extract_input_coins / apply_tx_batch_impl composition (acceptance conditions of the whole batch); rejection-is-no-op follows from apply_tx_batch taking &self and assigning only on Ok (not yet a discharged obligation).", technique=T_VERUS),
+ "C04": dict(level="proof", design="DESIGN.md 4/C04",
+   text="validate_tx_scripts proved Ok <=> (cached or covenant present, decodes, and evaluates truthy on (tx, env)); check_tx_validity proved to approve every input with its own environment under the envelope (pairwise distinct covenant hashes, <= 256 inputs); the two excluded domains are genuine defects listed as known findings with real-code witnesses.",
+   note=TRUST + "Covenant execution is the uninterpreted spec_exec (its semantics is C10); standard-covenant clause not yet mechanised.", technique=T_VERUS),
+ "C05": dict(level="proof", design="DESIGN.md 4/C05",
+   text="create_next_state: every accepted transaction pays >= floor(weight*mult/65536); fee pool and tips grow by exactly the sum of minimum fees / remainders (fsum over the batch) under the no-overflow envelope; refusal for fees only when some transaction pays strictly less.",
+   note=TRUST + "Transaction::base_fee/weight formula assumed (A-STRUCTS); proposer reward coin (collect_proposer_action_fee) pending in the seal unit.", technique=T_VERUS),
+ "C13": dict(level="proof", design="DESIGN.md 4/C13",
+   text="stake_is_consistent <=> the three conditions; load_stake_info registers exactly the consistent SYM stakes and rejects malformed ones; check_tx_validity rejects inputs whose creating transaction is a registered or new stake; StakeSet::votes/total_votes equal the order-independent sum over stakes with start <= epoch < end; unlock_old keeps exactly e_post_end >= epoch.",
+   note=TRUST + "Lock window over histories (next_unsealed chain) and stakes_hash commitment pending in the seal unit.", technique=T_VERUS),
+ "C14": dict(level="proof", design="DESIGN.md 4/C14",
+   text="confirm proved: Some only if every signature verifies over the header hash; given that, Some whenever 3*present > 2*total and None whenever 3*present < 2*total, with present/total defined as order-independent sums over the stake map; monotonicity lemma mechanised. The inverted threshold of the pinned tree was repaired (fix: commit) after the obligations failed.",
+   note=TRUST + "Ed25519 verification uninterpreted (sig_ok); header() assumed by contract.", technique=T_VERUS),
  "C17": dict(level="proof", design="DESIGN.md 4/C17",
-   text="Verus proves, for every multiplier 0..2^128 and every delta, that move_action_fee_multiplier (text extracted from /repo each run) moves the multiplier by exactly trunc(max(m/128,2)*d/128) clamped to the representable range, by at most max(m/128,2), with no overflow/underflow and no other field written; seal(None) frame via the seal unit.",
-   note="Trusted: Verus/Z3, extraction rules R0-R8, i8::unsigned_abs spec, hand-mirrored ProposerAction/UnsealedState field types (UnsealedState struct text itself is extracted).",
-   technique="Verus contract (requires/ensures) on the extracted real function + bit_vector/nonlinear lemmas"),
+   text="move_action_fee_multiplier proved for every multiplier 0..2^128 and every delta: exact step trunc(max(m/128,2)*d/128) on [2, 2^70], clamped outside, |step| <= max(m/128,2), no overflow, frame. Repaired (fix: commit) after the overflow/underflow obligations failed.",
+   note=TRUST + "seal(None) frame pending in the seal unit.", technique=T_VERUS),
+ "C18": dict(level="proof", design="DESIGN.md 4/C18",
+   text="validate_and_get_doscmint_speed proved to accept only when the payload decodes, the proof verifies (legacy or TIP-910) for the puzzle hk(hash(header at coin height), ser(coin id)), the coin is >= 100 blocks old on mainnet, and minted ERG <= dosc_to_erg(height, reward(speed, previous dosc_speed)); reward / inflator / speed formulas proved against integer specs.",
+   note=TRUST + "melpow verification uninterpreted; its non-totality is known finding F-C09-melpow; max-reduction of speeds over the batch (apply_tx_batch_impl) pending.", technique=T_VERUS),
+ "C19": dict(level="proof", design="DESIGN.md 4/C19",
+   text="handle_faucet_tx proved: mainnet non-grandfathered => MalformedTx; marker present => DuplicateTx; otherwise the zero-MEL marker is inserted; create_next_state proved to carry markers of all faucets of the batch and to refuse same-batch duplicates.",
+   note=TRUST + "Hex comparison with the grandfathered hash modelled as an opaque predicate (literal pinned by text); marker persistence over histories is the frame argument of DESIGN 4/C19.", technique=T_VERUS),
+ "C20": dict(level="proof", design="DESIGN.md 4/C20",
+   text="CoinMapping::{insert_coin, remove_coin, insert_coin_count, coin_count} proved against the raw SMT view: exact effect on coins and counts, and preservation of counts_ok (count == number of coins per covenant hash, no zero entries); create_next_state and handle_faucet_tx preserve it (with the origin_ok state invariant).",
+   note=TRUST + "A-PHYS: a tree holds < 2^63 entries. Activation loop and melmint call sites pending.", technique=T_VERUS),
+ "C17": dict(level="proof", design="DESIGN.md 4/C17",
+   text="move_action_fee_multiplier proved for every multiplier 0..2^128 and every delta: exact step trunc(max(m/128,2)*d/128) on [2, 2^70], clamped outside, |step| <= max(m/128,2), no overflow, frame. Repaired (fix: commit) after the overflow/underflow obligations failed.",
+   note=TRUST + "seal(None) frame pending in the seal unit.", technique=T_VERUS),
 }
 NA = {}
 def main():
@@ -33,6 +61,6 @@ def main():
          "checks": checks, "not_applicable": na,
          "notes": "exit 2 = undecided (never an alarm). known findings: /verif/known_findings.json"}
     json.dump(m, open(os.path.join(VERIF, "MANIFEST.json"), "w"), indent=1)
-SOURCE_COMMITS = []
+SOURCE_COMMITS = ['804447c', '2d7ebd3', '3958b62', 'cf14a0b']
 if __name__ == "__main__":
     main()
